@@ -115,3 +115,19 @@ def placeholders():
         return out or None
     except Exception:
         return None
+
+
+def dirmarks():
+    """[(ctx, dir, grp, pattern_str)] from conf.h dirmarks[] (string literals and CR2L/CNEUT macros concatenated), or None"""
+    try:
+        s = _src('conf.h')
+        m = re.search(r'dirmarks\[\]\s*=\s*\{(.*?)\n\};', s, re.S)
+        out = []
+        for ctx, d, grp, expr in re.findall(r'\{\s*([+-]?\d+)\s*,\s*([+-]?\d+)\s*,\s*(\d+)\s*,\s*((?:"(?:[^"\\]|\\.)*"|[A-Z0-9_]+|\s)+)\}', m.group(1)):
+            pat = ''
+            for lit, mac in re.findall(r'"((?:[^"\\]|\\.)*)"|([A-Z0-9_]+)', expr):
+                pat += conf_macro(mac) if mac else _cstr(lit).decode('utf-8')
+            out.append((int(ctx), int(d), int(grp), pat))
+        return out or None
+    except Exception:
+        return None
